@@ -1,4 +1,6 @@
-CONSTANT MaxRuns = 2
+CONSTANTS
+ MaxRuns = 2
+ MaxIters = 2
 INIT Init
 NEXT Next
 CHECK_DEADLOCK FALSE
